@@ -50,7 +50,9 @@ impl XRule
 
     pub fn to_json(&self) -> Value
     {
-        json!({"tg" : self.tg, "src" : self.src, "cl" : self.command_lines(), "kind" : self.kind, "id" : self.id,
+        /* a command killed by a signal (no exit code) fails like one that exits non-zero */
+        let kind = if self.kind == "kill" { "fail".to_string() } else { self.kind.clone() };
+        json!({"tg" : self.tg, "src" : self.src, "cl" : self.command_lines(), "kind" : kind, "id" : self.id,
                "omit" : self.omit, "mask" : self.mask, "x" : self.x, "pf" : self.pf})
     }
 
